@@ -105,9 +105,15 @@ def configure(threading):
     d = os.path.join(BUILD, "%s-%s" % (tag, h))
     with _Lock(os.path.join(BUILD, tag + ".lock")):
         if os.path.exists(os.path.join(d, "ok")):
+            os.utime(d)  # in use now: not to be pruned by a concurrent run
             return d
         for old in glob.glob(os.path.join(BUILD, tag + "-*")):
-            shutil.rmtree(old, ignore_errors=True)
+            # as for builds below: a configuration young enough to be in use by a concurrently running check (of another tree) stays
+            try:
+                if time.time() - os.path.getmtime(old) > 3 * 3600 or old.endswith(".tmp"):
+                    shutil.rmtree(old, ignore_errors=True)
+            except OSError:
+                pass
         tmp = d + ".tmp"
         shutil.rmtree(tmp, ignore_errors=True)
         os.makedirs(tmp)
@@ -159,6 +165,7 @@ def build(variant):
     d = os.path.join(BUILD, "%s-%s" % (variant, h))
     with _Lock(os.path.join(BUILD, variant + ".lock")):
         if os.path.exists(os.path.join(d, "ok")):
+            os.utime(d)
             return d
         for old in glob.glob(os.path.join(BUILD, variant + "-*")):
             # stale builds are removed, but not ones young enough to be in use by a check that is still running
